@@ -27,11 +27,15 @@ prop(
     "(replace/insert/delete/other letter/other octave) of valid names up to length 8. Oracle: an independent "
     "note grammar (letter A-G any case, optional # except after E/B, octave -2..8, value <= 127). "
     "Non-trivial = the string has the outer shape letter #? -? digit (the only strings that can be mis-accepted) "
-    "or is a number round trip; distinct by the string itself. 'X-0' spellings are not asserted.",
+    "or is a number round trip; distinct by the string itself. 'X-0' spellings are not asserted. History part: "
+    "rapid-generated sequences of arbitrary 3-byte events (data bytes 0..255) are printed with Event.String in a fresh "
+    "child process each; events of the note-carrying types with a note byte < 128 must print the reference name whatever "
+    "was formatted before (non-trivial = a valid note printed after a byte >= 128 with the same low 7 bits).",
     [
         dict(test="TestC11Exhaustive", shards_quick=5, shards_thorough=13, replayable=False),
         dict(test="TestC11Numbers", shards=1, replayable=False),
         dict(test="TestC11", shards_quick=4, shards_thorough=16, checks_quick=50000, checks_thorough=500000),
+        dict(test="TestC11History", shards_quick=6, shards_thorough=16, checks_quick=250, checks_thorough=4000),
     ],
     level_text="Bounded-exhaustive plus sampled generated-input search against an independent grammar: every string up to "
                "length 3 (quick) / 4 (thorough) over the property's alphabet and all 128 numbers are decided; longer strings are sampled.",
@@ -53,11 +57,14 @@ prop(
     "bursts, key repeats, MIDI-in noise, unmapped keys, axis moves); the event stream is closed after the last event, so the random length is "
     "the injected disconnect point; TestC01Cuts additionally runs EVERY prefix of generated histories. Oracle: a receiver "
     "(Note On adds, Note Off / CC123 removes) must have nothing sounding whenever no key is down and all axes are at rest, and after "
-    "ProcessEvents returns; nothing may be emitted afterwards. Non-trivial = (a state-changing action while a note key was held AND a second "
+    "ProcessEvents returns; nothing may be emitted afterwards. Worlds include a second sub-handler reporting a note key with the same code "
+    "as a key of the first, and action keys that are also listed as note keys. TestC01BusySink ends the stream while the reader of the MIDI "
+    "output is busy (queue full for 0.6-0.9 s quick, up to 5.2 s thorough): processing may end late but not before every note is released. Non-trivial = (a state-changing action while a note key was held AND a second "
     "note key overlapping) OR disconnect with a key/axis held; distinct by hash of (description, history).",
     [
         dict(test="TestC01", shards=16, checks_quick=8000, checks_thorough=60000),
         dict(test="TestC01Cuts", shards=16, checks_quick=250, checks_thorough=2500),
+        dict(test="TestC01BusySink", shards=16, checks_quick=8, checks_thorough=40, shrinktime="60s"),
     ],
     level_text="Generated-history search with disconnect injected at every prefix of bounded histories (fault enumeration over cut points) and "
                "at random points of longer ones; the oracle is receiver-side only, so it does not depend on which messages HIDI chooses to send.",
@@ -324,8 +331,11 @@ prop(
     "had seen when DespawnOutput was called (the whole stream for consumers kept to the end); DespawnOutput always returns - the negative "
     "verdict is a stable blocked state in two goroutine dumps 1 s apart (delivery goroutine parked in chan send, caller parked on the mutex), "
     "not a bare time-out; channels closed after removal. Non-trivial = >= 2 emitters with >= 1 consumer, or a detach of a consumer that had "
-    "stopped reading; distinct by case hash.",
-    [dict(test="TestC15", shards=16, checks_quick=500, checks_thorough=6000, shrinktime="10s", gomaxprocs=16, timeout_quick=600)],
+    "stopped reading; distinct by case hash. The port collector reads until the transport is stopped, so messages nobody emitted and late "
+    "duplicates are seen too. Long-lived part: the same cases with traffic, a pause of 5.2-7 s (quick; 5-65 s thorough) and traffic again, "
+    "for anything the transport does on a timer.",
+    [dict(test="TestC15", shards=16, checks_quick=500, checks_thorough=6000, shrinktime="10s", gomaxprocs=16, timeout_quick=600),
+     dict(test="TestC15LongLived", shards_quick=4, shards_thorough=16, checks_quick=2, checks_thorough=6, shrinktime="60s", gomaxprocs=16, timeout_quick=600)],
     level_text="Generated schedules of harness-owned actions against sequence-number oracles; interleavings inside the units' own goroutines "
                "are sampled by the Go scheduler under several GOMAXPROCS values, not enumerated.",
     level_note="Trusted: the harness consumers/feeder; cmd/hidi/manager.go itself needs evdev nodes and is represented by the same library calls "
